@@ -21,6 +21,10 @@ EDGE = {
     "SSTRING": ["x"], "STRING": ["xy"],
 }
 
+# a small value of each request type that every numeric tag type can hold
+SMALL = {"BOOL": True, "SINT": 1, "INT": 1, "DINT": 1, "LINT": 1, "USINT": 1, "UINT": 1, "UDINT": 1, "ULINT": 1, "REAL": 1.0, "LREAL": 1.0,
+         "SSTRING": "y", "STRING": "y"}
+
 CLS = 0x401
 
 
